@@ -1,7 +1,7 @@
-(* C11 -- framer elapsed/recurred clocks drive timeout and repeat.  PARTIAL (see meta.json). *)
+(* C11 -- framer elapsed/recurred clocks drive timeout and repeat. *)
 From Coq Require Import List ZArith Bool Arith.
 Import ListNotations.
-Require Import V.Kernel.Model V.Kernel.GenInd V.Kernel.Basics V.Kernel.PrecurProofs V.Kernel.MoreProofs.
+Require Import V.Kernel.Model V.Kernel.GenInd V.Kernel.Basics V.Kernel.ActInv V.Kernel.PrecurProofs V.Kernel.MoreProofs V.Kernel.ClockProofs.
 
 (* 'timeout T' / 'repeat N' / 'if elapsed op T' / 'if recurred op N' are exactly the written comparison on
    the framer's own clocks *)
@@ -37,3 +37,40 @@ Theorem clocks_have_a_footprint : forall (O : TimeOps) (P : prog O) n,
   ops_R O (footprint O P) (lvl P n).
 Proof. exact footprint_ops. Qed.
 Print Assumptions clocks_have_a_footprint.
+
+(* The clocks change in exactly two places.  For every acyclic program, every auxiliary depth, any time type:
+   (i) entering a non-empty list of frames -- any outline change, including forced re-entry -- restarts them at
+       the current store stamp: fstamp := stamp, elapsed := 0, recurred := 0 (and whatever the entered frames'
+       actions and auxiliaries do afterwards cannot change that) *)
+Theorem outline_change_restarts_clocks : forall (O : TimeOps) (P : prog O), acyclic O P ->
+  forall n a e l w, crashed w = None -> a < length (tss w) ->
+  clock O (gett (framer_enter P (lvl P n) a (e :: l) w) a) = (stamp w, tzero O, 0%Z).
+Proof. exact lvl_enter_restarts_clock. Qed.
+Print Assumptions outline_change_restarts_clocks.
+
+(* (ii) each run of the framer starts (Framer.segue) by setting elapsed := store stamp - fstamp and
+       recurred := recurred + 1, fstamp unchanged; that is the state the first transition clause is evaluated
+       in, after the auxiliaries' own transitions *)
+Theorem clocks_at_first_evaluation : forall (O : TimeOps) (P : prog O), acyclic O P ->
+  forall n a w, a < length (tss w) ->
+  clock O (gett (segue_world O P (lvl P n) a w) a) =
+  (fstamp (gett w a), tsub O (stamp w) (fstamp (gett w a)), (recurred (gett w a) + 1)%Z).
+Proof. exact lvl_segue_sets_clock. Qed.
+Print Assumptions clocks_at_first_evaluation.
+
+(* ... and every later clause of the tick is evaluated against the same clocks: clauses that do not fire
+   (plain precur actions, refused transitions, conditional auxiliaries whatever they do) keep them *)
+Theorem clocks_constant_during_evaluation : forall (O : TimeOps) (P : prog O), acyclic O P ->
+  forall n a f w,
+  let '(w', r) := precur P (lvl P n) a f (preacts (getf P a f)) w in r = false -> ckeeps O a w w'.
+Proof. exact lvl_precur_keeps_clock. Qed.
+Print Assumptions clocks_constant_during_evaluation.
+
+(* (iii) nothing else writes them: recur actions and exiting keep the framer's clocks *)
+Theorem recur_and_exit_keep_clocks : forall (O : TimeOps) (P : prog O), acyclic O P ->
+  forall n a w, ckeeps O a w (framer_recur P (lvl P n) a w) /\
+                forall b, ckeeps O a w (framer_exitAll P (lvl P n) b a w).
+Proof.
+  intros O P Hac n a w. split; [apply recur_keeps_clock|intros b; apply exitAll_keeps_clock]; auto; apply footprint_ops.
+Qed.
+Print Assumptions recur_and_exit_keep_clocks.
